@@ -4,6 +4,7 @@ pub mod c14;
 pub mod c15;
 pub mod c17;
 pub mod c18;
+pub mod c20;
 
 pub fn lookup(id: &str) -> Option<PropFn> {
     Some(match id {
@@ -11,6 +12,7 @@ pub fn lookup(id: &str) -> Option<PropFn> {
         "C15" => c15::run,
         "C17" => c17::run,
         "C18" => c18::run,
+        "C20" => c20::run,
         _ => return None,
     })
 }
